@@ -1209,6 +1209,22 @@ fn part_c_probes(root: &Path, st: &mut Stats) {
             _ => st.fail("oracle", "probe-strip-var", format!("unexpected outcome: rustc_err={:?} stdout={:?}", ro.rustc_err.as_ref().map(|e| e.chars().take(300).collect::<String>()), ro.stdout), "probe_strip_var"),
         }
     }
+    // 3b. no callback at all: an assembler label with a leading underscore (`__asm__("_name")`) is the symbol; on ELF the
+    //     Rust name `name` is not that symbol, so the attribute is needed (same region as the renaming cases)
+    if let Some((inv, pred, ro)) = probe("probe_asm_label", "int c04_al(int x) __asm__(\"_c04_al\");\nint c04_al2(int x) __asm__(\"c04_other\");\n",
+        "int c04_al(int x) { return x + 7; }\nint c04_al2(int x) { return x + 9; }\n", "println!(\"R {} {}\", c04_al(1), c04_al2(1));", CbMode::None, root, st) {
+        let f = inv.fns.iter().find(|f| f.ident == "c04_al");
+        let f2 = inv.fns.iter().find(|f| f.ident == "c04_al2");
+        let model_sym = pred.iter().find(|p| p.0 == "c04_al").map(|p| p.2.clone());
+        if f2.and_then(|f| f.link_name.clone()).as_deref() != Some("\u{1}c04_other") { st.fail("oracle", "probe-asm-label", format!("`c04_al2` with label `c04_other`: link_name {:?}", f2.map(|f| &f.link_name)), "probe_asm_label"); }
+        match (f, &ro.rustc_err) {
+            (Some(f), Some(e)) if f.link_name.is_none() && e.contains("c04_al") && rename_clash(false, "c04_al", "_c04_al", Some("C")) && model_sym.as_deref() == Some("c04_al") => {
+                *st.known.entry("link_name_omitted_after_rename: `int c04_al(int) __asm__(\"_c04_al\")` (no callback involved): the binding `c04_al` has no #[link_name], the symbol is `_c04_al` -> undefined symbol `c04_al` at link time on ELF (as the model predicts)".into()).or_insert(0) += 1;
+            }
+            (Some(f), None) if f.link_name.is_some() && ro.stdout.trim() == "R 8 10" => { st.distinct.insert("probe:asm-label:fixed".into()); }
+            other => st.fail("oracle", "probe-asm-label", format!("unexpected outcome: binding={:?} rustc_err={:?} model_symbol={model_sym:?} stdout={:?}", other.0.map(|f| (&f.ident, &f.link_name)), other.1.as_ref().map(|e| e.chars().take(300).collect::<String>()), ro.stdout), "probe_asm_label"),
+        }
+    }
     // 4. renaming that keeps the symbol reachable (sanity: a correct renaming links and runs)
     if let Some((_inv, _pred, ro)) = probe("probe_rename_ok", "int c04_f9(int x);\nextern int c04_f10;\n", "int c04_f9(int x) { return x * 2; }\nint c04_f10 = 7;\n", "println!(\"R {} {}\", rn_f9(4), rn_f10);", CbMode::ItemName, root, st) {
         if ro.stdout.trim() != "R 8 7" { st.fail("oracle", "probe-rename-ok", format!("stdout={:?} err={:?}", ro.stdout, ro.rustc_err.as_ref().map(|e| e.chars().take(400).collect::<String>())), "probe_rename_ok"); }
